@@ -1494,10 +1494,18 @@ class BaseRequest:
         if content_type is not None:
             kw["content_type"] = content_type
         environ_add_POST(env, POST, content_type=content_type)
+
+        if POST is not None:
+            # the body was encoded for this content type; it may carry a
+            # boundary generated for it, which the caller's spelling lacks
+            content_type = kw["content_type"] = env["CONTENT_TYPE"]
         obj = cls(env, **kw)
 
         if headers is not None:
             obj.headers.update(headers)
+
+            if POST is not None:
+                env["CONTENT_TYPE"] = content_type
 
         return obj
 
